@@ -177,6 +177,7 @@ func runDtrexc(t *vlib.T, n int, blocks []int, fill, ldx int) {
 	nrm := fro(t0)
 	dim := fmax(n)
 	ld := ldOf(n, ldx)
+	ldqq := ldOf(n, off(ldx, 1))
 	q0 := randOrth(n, lcgFor(30, n, fill))
 	a := conj(q0, t0) // the matrix whose Schur factorization is (q0, t0)
 	b0 := blocksOf(t0)
@@ -205,8 +206,8 @@ func runDtrexc(t *vlib.T, n int, blocks []int, fill, ldx int) {
 				var qd []float64
 				ldq := 1
 				if compq == lapack.UpdateSchur {
-					qs = fromM(q0, ld).snap()
-					qd, ldq = qs.d, ld
+					qs = fromM(q0, ldqq).snap()
+					qd, ldq = qs.d, ldqq
 				}
 				fo, lo, ok := impl.Dtrexc(compq, n, ts.d, ld, qd, ldq, ifst, ilst, poisoned(n))
 				if i, okp := ts.padOK(n, n); !okp {
@@ -338,6 +339,7 @@ func runDlaexc(t *vlib.T, n int, blocks []int, fill, ldx int) {
 	nrm := fro(t0)
 	dim := fmax(n)
 	ld := ldOf(n, ldx)
+	ldqq := ldOf(n, off(ldx, 1))
 	q0 := randOrth(n, lcgFor(31, n, fill))
 	a := conj(q0, t0)
 	b0 := blocksOf(t0)
@@ -351,8 +353,8 @@ func runDlaexc(t *vlib.T, n int, blocks []int, fill, ldx int) {
 			var qd []float64
 			ldq := 1
 			if wantq {
-				qs = fromM(q0, ld).snap()
-				qd, ldq = qs.d, ld
+				qs = fromM(q0, ldqq).snap()
+				qd, ldq = qs.d, ldqq
 			}
 			ok := impl.Dlaexc(wantq, n, ts.d, ld, qd, ldq, j1, n1, n2, poisoned(n))
 			if !ok {
@@ -753,23 +755,24 @@ func runDtrevc3(t *vlib.T, n int, blocks []int, fill int, p prof, ldx int, long 
 			for _, lw := range []string{"min", "query", "17n", "19n+1"} {
 				ctx := fmt.Sprintf("side=%c howmny=%c lwork=%s", side, how, lw)
 				ts := fromM(tm, ldt).snap()
-				ldv := ldOf(n, ldx)
 				var vls, vrs *S
 				var vld, vrd []float64
 				ldvl, ldvr := 1, 1
-				mk := func() *S {
+				mk := func(ldv int) *S {
 					if how == lapack.EVAllMulQ {
 						return fromM(q0, ldv).snap()
 					}
 					return newS(n, n, ldv).snap()
 				}
 				if side != lapack.EVRight {
-					vls = mk()
-					vld, ldvl = vls.d, ldv
+					ldvl = ldOf(n, off(ldx, 1))
+					vls = mk(ldvl)
+					vld = vls.d
 				}
 				if side != lapack.EVLeft {
-					vrs = mk()
-					vrd, ldvr = vrs.d, ldv
+					ldvr = ldOf(n, off(ldx, 2))
+					vrs = mk(ldvr)
+					vrd = vrs.d
 				}
 				lwork := max(1, 3*n)
 				switch lw {
@@ -828,17 +831,18 @@ func runDtrevc3(t *vlib.T, n int, blocks []int, fill int, p prof, ldx int, long 
 			}
 			mm := len(cols)
 			ts := fromM(tm, ldt).snap()
-			ldv := max(1, mm) + ldx
 			var vls, vrs *S
 			var vld, vrd []float64
 			ldvl, ldvr := 1, 1
 			if side != lapack.EVRight {
-				vls = newS(n, mm, ldv).snap()
-				vld, ldvl = vls.d, ldv
+				ldvl = max(1, mm) + off(ldx, 1)
+				vls = newS(n, mm, ldvl).snap()
+				vld = vls.d
 			}
 			if side != lapack.EVLeft {
-				vrs = newS(n, mm, ldv).snap()
-				vrd, ldvr = vrs.d, ldv
+				ldvr = max(1, mm) + off(ldx, 2)
+				vrs = newS(n, mm, ldvr).snap()
+				vrd = vrs.d
 			}
 			lwork := max(1, 3*n)
 			m := impl.Dtrevc3(side, lapack.EVSelected, selected, n, ts.d, ldt, vld, ldvl, vrd, ldvr, mm, poisoned(lwork), lwork)
